@@ -1039,3 +1039,115 @@ mod tests {
         }
     }
 }
+
+#[cfg(rubato_verif)]
+impl<T> FftResampler<T>
+where
+    T: Sample,
+{
+    fn verif_scratch_hash(&self) -> u64 {
+        let mut hasher = crate::verif::Hasher::default();
+        hasher.pod(&self.scratch_fw);
+        hasher.pod(&self.scratch_inv);
+        hasher.pod(&self.input_buf);
+        hasher.pod(&self.input_f);
+        hasher.pod(&self.output_f);
+        hasher.pod(&self.output_buf);
+        hasher.0
+    }
+
+    fn verif_filter_hash(&self) -> u64 {
+        let mut hasher = crate::verif::Hasher::default();
+        hasher.pod(&self.filter_f);
+        hasher.0
+    }
+}
+
+#[cfg(rubato_verif)]
+impl<T> FftFixedIn<T>
+where
+    T: Sample,
+{
+    /// Snapshot of the internal state, for verification harnesses.
+    pub fn verif_state(&self) -> crate::verif::State {
+        let (data_hash, data_len, data_shape) =
+            crate::verif::hash_channels(&[&self.overlaps, &self.input_buffers]);
+        crate::verif::State {
+            kind: "FftFixedIn",
+            scalars: vec![
+                ("nbr_channels", self.nbr_channels as u64),
+                ("chunk_size_in", self.chunk_size_in as u64),
+                ("fft_size_in", self.fft_size_in as u64),
+                ("fft_size_out", self.fft_size_out as u64),
+                ("saved_frames", self.saved_frames as u64),
+                ("unit_fft_size_in", self.resampler.fft_size_in as u64),
+                ("unit_fft_size_out", self.resampler.fft_size_out as u64),
+                ("filter_hash", self.resampler.verif_filter_hash()),
+            ],
+            mask: self.channel_mask.clone(),
+            data_hash,
+            data_len,
+            data_shape,
+            scratch_hash: self.resampler.verif_scratch_hash(),
+        }
+    }
+}
+
+#[cfg(rubato_verif)]
+impl<T> FftFixedOut<T>
+where
+    T: Sample,
+{
+    /// Snapshot of the internal state, for verification harnesses.
+    pub fn verif_state(&self) -> crate::verif::State {
+        let (data_hash, data_len, data_shape) =
+            crate::verif::hash_channels(&[&self.overlaps, &self.output_buffers]);
+        crate::verif::State {
+            kind: "FftFixedOut",
+            scalars: vec![
+                ("nbr_channels", self.nbr_channels as u64),
+                ("chunk_size_out", self.chunk_size_out as u64),
+                ("fft_size_in", self.fft_size_in as u64),
+                ("fft_size_out", self.fft_size_out as u64),
+                ("saved_frames", self.saved_frames as u64),
+                ("frames_needed", self.frames_needed as u64),
+                ("unit_fft_size_in", self.resampler.fft_size_in as u64),
+                ("unit_fft_size_out", self.resampler.fft_size_out as u64),
+                ("filter_hash", self.resampler.verif_filter_hash()),
+            ],
+            mask: self.channel_mask.clone(),
+            data_hash,
+            data_len,
+            data_shape,
+            scratch_hash: self.resampler.verif_scratch_hash(),
+        }
+    }
+}
+
+#[cfg(rubato_verif)]
+impl<T> FftFixedInOut<T>
+where
+    T: Sample,
+{
+    /// Snapshot of the internal state, for verification harnesses.
+    pub fn verif_state(&self) -> crate::verif::State {
+        let (data_hash, data_len, data_shape) = crate::verif::hash_channels(&[&self.overlaps]);
+        crate::verif::State {
+            kind: "FftFixedInOut",
+            scalars: vec![
+                ("nbr_channels", self.nbr_channels as u64),
+                ("chunk_size_in", self.chunk_size_in as u64),
+                ("chunk_size_out", self.chunk_size_out as u64),
+                ("fft_size_in", self.fft_size_in as u64),
+                ("unit_fft_size_in", self.resampler.fft_size_in as u64),
+                ("unit_fft_size_out", self.resampler.fft_size_out as u64),
+                ("filter_hash", self.resampler.verif_filter_hash()),
+            ],
+            mask: self.channel_mask.clone(),
+            data_hash,
+            data_len,
+            data_shape,
+            scratch_hash: self.resampler.verif_scratch_hash(),
+        }
+    }
+}
